@@ -117,7 +117,7 @@ def unhex (s : String) : List Nat :=
 def parseRtOpts (s : String) : RtOpts :=
   let has (c : Char) := s.toList.contains c
   { strictDone := has 's', dynamic := has 'd', onDemand := has 'o', deleteFrees := has 'f',
-    u8 := has 'u', unsafeIdx := has 'x', indirect := has 'i', zeroLen := has 'z', packed := has 'p' }
+    u8 := has 'u', unsafeIdx := has 'x', indirect := has 'i', zeroLen := has 'z', packed := has 'p', eof := has 'e' }
 
 def rtOp (c : RtCtx) (σ0 : CState) (σ : CState) (op : String) : CState :=
   match splitOn op ':' with
@@ -225,7 +225,7 @@ def cmdWf (args : List String) : String :=
     match parseMachine m with
     | .ok M =>
       let c : RtCtx := { M := M, ro := parseRtOpts opts }
-      s!"leavesOK={M.leavesOK c.semOpts} endArmsOK={M.endArmsOK} safeCheck={c.safeCheck} noSpin={c.noSpinCheck} yieldProgress={M.yieldProgressCheck c.semOpts} idxFree={c.idxFreeCheck} endFailOK={M.endFailOK c.semOpts} states={M.states.size}"
+      s!"leavesOK={M.leavesOK c.semOpts} endArmsOK={M.endArmsOK} safeCheck={c.safeCheck} noSpin={c.noSpinCheck} yieldProgress={M.yieldProgressCheck c.semOpts} idxFree={c.idxFreeCheck} endFailOK={M.endFailOK c.semOpts} endFailExact={M.endFailExact c.semOpts} states={M.states.size}"
     | .error e => s!"error parse {e}"
   | _ => "error bad-args"
 
